@@ -15,25 +15,25 @@ BASELINE = ("cd /repo && /venv/bin/python -m pytest -ra -q -p no:cacheprovider -
 
 TECH = {
     'C01': "static analysis: work-list invariants by CFG must-use / must-pass-through / dominance, ownership tables, AST truth table for Not; abstract interpretation (AST interpreter over a finite case grid) of SBlock.set_output and of the resolved And/Or/Xor/Override functions",
-    'C02': "static analysis: CFG x automaton path-language inclusion (typestate), reaching definitions, ownership tables; abstract interpretation of SBlock.set_output (27 cases) and Event.send (73 filter pipelines) against the documented trace",
+    'C02': "static analysis: CFG x automaton path-language inclusion (typestate), reaching definitions, ownership tables; abstract interpretation of SBlock.set_output (27 cases) and Event.send (73 filter pipelines) against the documented trace; single-traversal rule for arguments that may be one-shot iterators",
     'C03': "static analysis: typestate (action-order language) on the CFG of FSM._ctx_event, effect-freedom of rejecting exits, reaching definitions; abstract interpretation of FSM._ctx_event on 17 scenarios (recording stand-ins, re-entrant nested events) and of FSM._build_tables on 8 small tables",
     'C04': "static analysis: ownership of the timer handle, must-pass-through cancel on exit/stop, branch-effect classification of the duration case split; abstract interpretation of FSM._ctx_event (timer stop/start order, per-event duration, no timer for a passed-through state)",
-    'C05': "static analysis: typestate of the init-step protocol, dominance of guards, who-may-call tables, bounded-wait shape",
-    'C06': "static analysis: save/restore protocol by must-pass-through under fault model M1, writer/reader table agreement, time-base unit typing, timer-handle clearing before delivery",
-    'C07': "static analysis: non-emptiness domain for partial operations on the alarm registry, must-call registry protocol; abstract interpretation of interval membership (__contains__, 589 cases per class), of the scheduler's add/remove registry (all call sequences up to length 3) and of the clock-jump guard on impossible delays",
-    'C08': "static analysis: CFG with exceptional and cancellation edges (M1/M1c), linear task ownership (must-use), who-may-call, super-chain, docs<->code",
-    'C09': "static analysis: write-once ownership with dominance, no-swallow handler classification against a frozen sink table",
-    'C10': "static analysis: loop-cycle must-pass-through (counter/limit), dominance of resets by the idle point, constant folding; multi-site removed=>evaluated rule shared with C01; abstract interpretation of SBlock.set_output for 'queued before any delivery'",
-    'C11': "static analysis: acquire/release pairing on all exits under the any-statement-may-raise fault model M2, ownership and who-may-lift tables, no-swallow table over the may-deliver call closure; abstract interpretation of FSM._ctx_event for the guard flag on every exit and the recursion window",
-    'C12': "static analysis: linear use of dequeued items (at least once and at most once, pruned path search), outcome-arm classification, counter pairing under M2, mode-shape rules",
-    'C13': "static analysis: finite abstract evaluation over the 13 weak orderings (exhaustive), literal-table agreement; abstract interpretation of __contains__ per concrete class (one and two ranges), fresh-list rule for the exporters",
-    'C14': "static analysis: dominance of the is_ready gate, two-point string-prefix dataflow domain, who-may-pass _reserved; abstract interpretation of Event.send (source item), CFG rule 'recorded task implies recorded error at every exit' under M1, result-passing rule for event() wrappers",
-    'C15': "static analysis: dominance and order of resolve/connect before the freeze flag, who-must-call gate, literal<->attribute agreement of the resolver, finite abstract evaluation of the signature comparison",
+    'C05': "static analysis: typestate of the init-step protocol, dominance of guards, who-may-call tables, bounded-wait shape; abstract interpretation of AddonPersistence.init_from_persistent_data (saved state restored whether or not the block is initialised) and of SBlock.event (early initialisation inside the recursion window)",
+    'C06': "static analysis: save/restore protocol by must-pass-through under fault model M1, writer/reader table agreement, time-base unit typing, timer-handle clearing before delivery; abstract interpretation of the expiry decision on a (expiration, stop time, now, initialised) grid",
+    'C07': "static analysis: non-emptiness domain for partial operations on the alarm registry, must-call registry protocol; abstract interpretation of interval membership (__contains__, 589 cases per class), of the scheduler's add/remove registry (all call sequences up to length 3) and of the clock-jump guard on impossible delays; who-may-call rule for the registry (reconfiguration only)",
+    'C08': "static analysis: CFG with exceptional and cancellation edges (M1/M1c), linear task ownership (must-use), who-may-call, super-chain, docs<->code; abstract interpretation of Circuit.check_not_finalized (4 cases) with dominance of the gate in every mutator",
+    'C09': "static analysis: write-once ownership with dominance, no-swallow handler classification against a frozen sink table; abstract interpretation of SBlock.event (22 scenarios: error raised inside a handler -> abort with cause and re-raise; call failure and unknown event -> no abort)",
+    'C10': "static analysis: loop-cycle must-pass-through (counter/limit), dominance of resets by the idle point, constant folding; multi-site removed=>evaluated rule shared with C01; abstract interpretation of SBlock.set_output for 'queued before any delivery'; path rule 'counter restarts at every idle'; wiring-completeness rules shared with C01/C15",
+    'C11': "static analysis: acquire/release pairing on all exits under the any-statement-may-raise fault model M2, ownership and who-may-lift tables, no-swallow table over the may-deliver call closure; abstract interpretation of FSM._ctx_event for the guard flag on every exit and the recursion window; abstract interpretation of SBlock.event (22 scenarios: refusal keeps the outer guard, guard released after every outcome, EventCond resolution incl. missing value, initialising event let through)",
+    'C12': "static analysis: linear use of dequeued items (at least once and at most once, pruned path search), outcome-arm classification, counter pairing under M2, mode-shape rules; explicit-raise escape analysis on the M1 CFG of the output and control coroutines; who-may-call for the uncounted coroutine",
+    'C13': "static analysis: finite abstract evaluation over the 13 weak orderings (exhaustive), literal-table agreement; abstract interpretation of __contains__ per concrete class (one and two ranges), fresh-list rule for the exporters; abstract interpretation of the date / date-time string parser (_convert_str with _match_pattern and the module's own regular expressions matched by CPython's re) on 20 well-formed and 22 malformed strings",
+    'C14': "static analysis: dominance of the is_ready gate, two-point string-prefix dataflow domain, who-may-pass _reserved; abstract interpretation of Event.send (source item), CFG rule 'recorded task implies recorded error at every exit' under M1, result-passing rule for event() wrappers; signature agreement of every event() definition (positional-only type, **data)",
+    'C15': "static analysis: dominance and order of resolve/connect before the freeze flag, who-must-call gate, literal<->attribute agreement of the resolver, finite abstract evaluation of the signature comparison; abstract interpretation of Const.__new__/__init__ on pairs of constants identified by equality or hashing; must-pass-through of an unconditional resolve() before the first start()",
     'C16': "static analysis: typestate of the filter pipeline, finite abstract evaluation on the truthiness domain (Edge: 144 cases) and on the key-equality domain (DataEdit, incl. pairs of deliveries), docs<->code; abstract interpretation of Event.send (73 pipelines) and of Edge with several representatives per truthiness class",
-    'C17': "static analysis: reaching definitions (only validated values reach set_output / sdata), stage-order and effect-free rejection on the CFG",
-    'C18': "static analysis: def-use agreement of output and repeat number, effect-free exits, keyword map of the implicit Repeat, key-absence dataflow for spread-plus-keyword calls",
+    'C17': "static analysis: reaching definitions (only validated values reach set_output / sdata), stage-order and effect-free rejection on the CFG; abstract interpretation of Input._event_put and InputExp.cond_put (also with a value already held); result-passing rule for event() wrappers",
+    'C18': "static analysis: def-use agreement of output and repeat number, effect-free exits, keyword map of the implicit Repeat, key-absence dataflow for spread-plus-keyword calls; no-discard rule for the dequeue sites of the main task",
     'C19': "static analysis: regex AST <-> unit letter <-> scale tuple agreement, constant folding, branch classification, abstract evaluation of the fraction test over the pattern's separator class; abstract interpretation of _convert as a whole with stand-ins for the compiled patterns (2 930 element combinations); repeat bounds of whitespace gaps in the regex AST",
-    'C20': "static analysis: reaching definitions (every output passes the modulo reduction), handler return/operand table, signatures; result-passing rule for the event() wrappers in Counter's MRO",
+    'C20': "static analysis: reaching definitions (every output passes the modulo reduction), handler return/operand table, signatures; result-passing rule for the event() wrappers in Counter's MRO; abstract interpretation of Counter.__init__ (stored modulo keeps value and type)",
 }
 
 
